@@ -142,8 +142,42 @@ func TestVerif_C20Stream(t *testing.T) {
 				}
 			}(i, s)
 		}
+		// redundant / foreign membership calls while publishing: a bystander that
+		// never joined topic "t" unsubscribes from it (and from a topic nobody
+		// uses), subscribes to another topic and is removed; none of this may
+		// affect the subscribers of "t"
+		bystander := es.AddSubscriber()
+		cwg.Add(1)
+		go func() {
+			defer cwg.Done()
+			for i := 0; i < 4; i++ {
+				es.Unsubscribe(bystander, "t")
+				es.Unsubscribe(bystander, "nobody")
+				es.Subscribe(bystander, "other")
+				es.Publish("other", "x")
+				es.Unsubscribe(bystander, "other")
+				es.Unsubscribe(bystander, "other")
+				time.Sleep(time.Duration(40+i*60) * time.Microsecond)
+			}
+			es.RemoveSubscriber(bystander)
+			es.Unsubscribe(bystander, "t")
+		}()
 		pwg.Wait()
 		cwg.Wait()
+		// subscribers that already left repeat their Unsubscribe (idempotent call)
+		for i, s := range subs {
+			if plans[i].leave {
+				es.Unsubscribe(s.sub, "t")
+			}
+		}
+		// one more wave of events after all membership calls: everyone still
+		// subscribed must get them
+		for p := 0; p < npub; p++ {
+			ev := &c20Event{Pub: p, N: per + 1, Seq: clock.Add(1)}
+			events[p] = append(events[p], ev)
+			es.Publish("t", ev)
+			pubRet[p] = append(pubRet[p], clock.Add(1))
+		}
 		pubDone.Store(true)
 		dwg.Wait()
 		if noise > 0 {
@@ -153,7 +187,7 @@ func TestVerif_C20Stream(t *testing.T) {
 		for si, s := range subs {
 			s.mu.Lock()
 			for p := 0; p < npub; p++ {
-				for i := 0; i < per; i++ {
+				for i := 0; i < len(events[p]); i++ {
 					ev := events[p][i]
 					cnt := s.got[[2]int{p, i + 1}]
 					ret := pubRet[p][i]
